@@ -159,6 +159,36 @@ func ruleDimensionTyping(c *eng.Ctx) {
 			}
 			idx, isCol := extractIdx(ia.Index, "xlsx.ParseCellRef")
 			if !isCol {
+				// the column kept from a first pass in a per-cell record and read back here: the field of a local
+				// record type whose every store in this function is a result of ParseCellRef
+				if fr, ok := eng.LoadOfField(ia.Index); ok {
+					n, same := 0, -1
+					eng.Instrs(fn, false, func(in2 ssa.Instruction) {
+						st, ok := in2.(*ssa.Store)
+						if !ok {
+							return
+						}
+						f2, ok := eng.AsField(st.Addr)
+						if !ok || f2.Struct != fr.Struct || f2.Field != fr.Field {
+							return
+						}
+						n++
+						if i2, ok := extractIdx(st.Val, "xlsx.ParseCellRef"); ok {
+							if same == -1 || same == i2 {
+								same = i2
+							} else {
+								same = -2
+							}
+						} else {
+							same = -2
+						}
+					})
+					if n > 0 && same >= 0 {
+						idx, isCol = same, true
+					}
+				}
+			}
+			if !isCol {
 				return
 			}
 			// inner index of Rows[r][c]
@@ -195,25 +225,33 @@ func ruleDimensionTyping(c *eng.Ctx) {
 		// merged regions
 		okM, seenM := true, false
 		want := map[string]int{"StartCol": 0, "StartRow": 1, "EndCol": 2, "EndRow": 3}
-		eng.Instrs(fn, false, func(in ssa.Instruction) {
-			st, ok := in.(*ssa.Store)
-			if !ok {
-				return
+		var mergeHosts []*ssa.Function
+		for _, h := range eng.Cluster(fn, 1) { // the regions may be collected by a stage function of the package
+			if h.Pkg == fn.Pkg {
+				mergeHosts = append(mergeHosts, h)
 			}
-			fr, ok := eng.AsField(st.Addr)
-			if !ok || !strings.HasSuffix(fr.Struct, "xlsx.MergedRegion") {
-				return
-			}
-			w, known := want[fr.Field]
-			if !known {
-				return
-			}
-			seenM = true
-			idx, isEx := extractIdx(st.Val, "xlsx.ParseRangeRef")
-			if !isEx || idx != w {
-				okM = false
-			}
-		})
+		}
+		for _, host := range mergeHosts {
+			eng.Instrs(host, false, func(in ssa.Instruction) {
+				st, ok := in.(*ssa.Store)
+				if !ok {
+					return
+				}
+				fr, ok := eng.AsField(st.Addr)
+				if !ok || !strings.HasSuffix(fr.Struct, "xlsx.MergedRegion") {
+					return
+				}
+				w, known := want[fr.Field]
+				if !known {
+					return
+				}
+				seenM = true
+				idx, isEx := extractIdx(st.Val, "xlsx.ParseRangeRef")
+				if !isEx || idx != w {
+					okM = false
+				}
+			})
+		}
 		c.Check(seenM && okM, R, "xlsx.(*Reader).parseWorksheet#merged-regions", fn.Pos(), "MergedRegion fields bound to the matching range coordinates", "a MergedRegion field is filled from the wrong coordinate of the range reference (rows and columns swapped or start/end mixed)")
 	}
 	// CellByRef: Cell(row, col)
